@@ -209,7 +209,10 @@ namespace sim
 		int const version = m_out_buffer[0];
 		int const command = m_out_buffer[1];
 		m_command = command;
-		++m_cmd_counts[command - 1];
+		// count CONNECT, BIND and UDP ASSOCIATE requests. Any other command
+		// byte is rejected below and must not index the counters
+		if (command >= 1 && command <= 3)
+			++m_cmd_counts[command - 1];
 
 		if (version != m_version)
 		{
